@@ -1,7 +1,7 @@
 (* Tensor trains over an abstract commutative ring with an involution (conjugation): amplitude semantics by iterated
    bounded sums.  Any length, any bond dimensions, any physical dimensions.  Used by C10 (gauge moves), C12 (sampling),
    C11/C01 (the norm at the centre is the global norm). *)
-From Coq Require Import List Arith Lia Ring.
+From Coq Require Import List Arith Lia Ring Bool.
 Import ListNotations.
 
 Section TT.
@@ -430,4 +430,35 @@ Proof. intro H.
     unfold step, pad_right. cbn [chiL A]. apply bsum_ext; intros l _. rewrite H, (proj2 (Nat.ltb_lt m (chiL s2)) Hm). reflexivity.
   - lia.
   - intros m H1 H2. destruct (Nat.ltb_spec m (chiL s2)); [lia|]. ring. Qed.
+
+(* ---- gate MPOs (C18, gate_library.extend_gate): an operator chain is a train whose physical index is the pair (out, in) coded as
+   out * dd + in.  Padding the two halves of a two-site gate with identity tensors that pass the bond through gives the gate on the two
+   outer sites and the identity on every site in between; the reversed orientation is the flipped train (flip_preserves_amplitudes). ---- *)
+Definition id_site (chi dd : nat) : site :=
+  {| d := dd * dd; chiL := chi; chiR := chi; A := fun p l r => if Nat.eqb (p / dd) (p mod dd) && Nat.eqb l r then k1 else k0 |}.
+Definition diag (dd p : nat) : bool := Nat.eqb (p / dd) (p mod dd).
+Lemma step_id v chi dd p r : r < chi -> step v (id_site chi dd) p r = if diag dd p then v r else k0.
+Proof. intro Hr. unfold step, id_site, diag. cbn [chiL A]. destruct (Nat.eqb (p / dd) (p mod dd)); cbn [andb].
+  - rewrite (bsum_ext chi _ (fun l => (if Nat.eqb r l then k1 else k0) * v l)).
+    + apply bsum_delta. exact Hr.
+    + intros l _. rewrite (Nat.eqb_sym l r). destruct (Nat.eqb r l); ring.
+  - rewrite (bsum_ext chi _ (fun _ => k0)) by (intros; ring). apply bsum_zero. Qed.
+Lemma step_ext_bounded v w s p : (forall l, l < chiL s -> v l = w l) -> forall r, step v s p r = step w s p r.
+Proof. intros H r. unfold step. apply bsum_ext. intros l Hl. rewrite (H l Hl). reflexivity. Qed.
+Lemma run_ids chi dd : forall mids v r, r < chi ->
+  run v (repeat (id_site chi dd) (length mids)) mids r = if forallb (diag dd) mids then v r else k0.
+Proof. induction mids as [|p mids IH]; intros v r Hr; cbn [length repeat run forallb]; [reflexivity|].
+  rewrite IH by exact Hr. destruct (diag dd p) eqn:E; cbn [andb].
+  - destruct (forallb (diag dd) mids); [|reflexivity]. rewrite step_id by exact Hr. rewrite E. reflexivity.
+  - destruct (forallb (diag dd) mids); [|reflexivity]. rewrite step_id by exact Hr. rewrite E. reflexivity. Qed.
+Theorem padded_gate_mpo t1 t2 chi dd mids p1 p2 : chiL t1 = 1 -> chiR t1 = chi -> chiL t2 = chi -> chiR t2 = 1 ->
+  amp (t1 :: repeat (id_site chi dd) (length mids) ++ [t2]) (p1 :: mids ++ [p2]) =
+  (if forallb (diag dd) mids then k1 else k0) * bsum chi (fun m => A t1 p1 0 m * A t2 p2 m 0).
+Proof. intros H1 H2 H3 H4. unfold amp. cbn [run].
+  rewrite run_app by (rewrite repeat_length; reflexivity). cbn [run].
+  unfold step at 1. rewrite H3.
+  rewrite (bsum_ext chi _ (fun m => (if forallb (diag dd) mids then k1 else k0) * (A t1 p1 0 m * A t2 p2 m 0))).
+  - rewrite bsum_mul_l. reflexivity.
+  - intros m Hm. rewrite run_ids by exact Hm. unfold step. rewrite H1. cbn [bsum e0].
+    destruct (forallb (diag dd) mids); ring. Qed.
 End TT.
